@@ -507,6 +507,56 @@ func c04Register(c *Check, P string, r *GCRoles) {
 		_, hasTopic := held[r.idTopic]
 		c.Report(hasTopic, P+".O6", "REGISTER-UNDER-TOPIC-LOCK", s.Parent(), s.Pos(), fmt.Sprintf("registration#%d", i), "… and with the topic's mutex held", "held: "+held.String())
 	}
+	// the registration appends the subscription to its topic's list
+	A := r.AddSub
+	var subP *ssa.Parameter
+	for _, p := range A.Params {
+		if NamedOf(p.Type()) == r.S {
+			subP = p
+		}
+	}
+	nApp := 0
+	AllInstrs(A, func(in ssa.Instruction) {
+		mu, ok := in.(*ssa.MapUpdate)
+		if !ok || !r.isSubs(mu.Map) {
+			return
+		}
+		call, isCall := firstOrigin(mu.Value).(*ssa.Call)
+		if !isCall {
+			return
+		}
+		args, isApp := IsBuiltinCall(call, "append")
+		if !isApp || len(args) != 2 {
+			return
+		}
+		nApp++
+		lk, isLk := firstOrigin(args[0]).(*ssa.Lookup)
+		els := VariadicElems(args[1])
+		ok2 := isLk && r.isSubs(lk.X) && sameValue(lk.Index, mu.Key) && len(els) == 1 && subP != nil && FromParam(subP)(els[0])
+		c.Report(ok2, P+".O6", "REGISTER-APPENDS", A, in.Pos(), "registration", "the subscription is appended to its own topic's list (existing subscriptions are kept)")
+		for _, ret := range Returns(A) {
+			c.Report(Dominates(A, in, ret), P+".O6", "REGISTER-ALWAYS", A, in.Pos(), "registration", "every path of the registration function adds the subscription")
+		}
+	})
+	c.Floor(P+".O6", "append of the subscription to the subscriber map", nApp, 1)
+	// the subscription carries the Subscribe context and a channel with the configured buffer
+	okCtx, okBuf := false, false
+	for _, st := range FieldStores(r.Subscribe, r.SCtx) {
+		if AllOrigins(st.Val, func(o ssa.Value) bool { p, ok := o.(*ssa.Parameter); return ok && p.Parent() == r.Subscribe && p.Type().String() == "context.Context" }) {
+			okCtx = true
+		}
+	}
+	for _, st := range FieldStores(r.Subscribe, r.SOut) {
+		if mc, ok := firstOrigin(st.Val).(*ssa.MakeChan); ok && AllOrigins(mc.Size, exportedFieldLoad("OutputChannelBuffer")) {
+			okBuf = true
+		} else if ok {
+			if cv, isCv := mc.Size.(*ssa.Convert); isCv && AllOrigins(cv.X, exportedFieldLoad("OutputChannelBuffer")) {
+				okBuf = true
+			}
+		}
+	}
+	c.Report(okCtx, P+".O1", "SUBSCRIPTION-CONTEXT", r.Subscribe, r.Subscribe.Pos(), "subscription ctx", "the subscription keeps the context given to Subscribe (delivery contexts derive from it)")
+	c.Report(okBuf, P+".O6", "SUBSCRIPTION-CHANNEL", r.Subscribe, r.Subscribe.Pos(), "subscription channel", "the output channel is made with the configured buffer size")
 	for i, cl := range Callers([]*ssa.Function{r.Publish}, r.Fan) {
 		held := r.LA.Held(cl)
 		_, ok := held[r.idSubs]
